@@ -6,6 +6,7 @@ import (
 	"context"
 	"errors"
 	"fmt"
+	"net"
 	"os"
 	"sort"
 	"strconv"
@@ -49,6 +50,8 @@ type c33Case struct {
 	Poison      map[string][]string `json:"poison"`   // peer index -> items: a batch containing one of them gets an RPC error from that peer
 	Reported    map[string][]string `json:"reported"` // peer index -> items the peer reports as failed in its response
 	PeersError  bool                `json:"peers_error"`
+	DepHost     string              `json:"dep_host"` // host of the departed node ("" = 10.0.0.99); IPv6 literals allowed
+	Stale       []string            `json:"stale"`    // items whose registry entry still points at the departed node
 }
 
 type c33Call struct {
@@ -76,11 +79,15 @@ type c33Out struct {
 	Deletes     int            `json:"deletes"`
 	Err         string         `json:"err"`
 	TookMs      int64          `json:"took_ms"`
+	Markers     []string       `json:"markers"`      // distinct departed-node markers carried by the RelocateBatch requests
+	WantMarker  string         `json:"want_marker"`  // how the registry renders the departed node's endpoint
+	DupAccepted int            `json:"dup_accepted"` // duplicate departures accepted while the snapshot was being deleted
 }
 
 type verifC33Store struct {
-	mu      sync.Mutex
-	deletes []string
+	mu       sync.Mutex
+	deletes  []string
+	onDelete func(addr string) // runs inside DeletePeerState, i.e. while the snapshot is still readable
 }
 
 func (s *verifC33Store) PersistPeerState(context.Context, *internalpb.PeerState) error { return nil }
@@ -88,6 +95,9 @@ func (s *verifC33Store) GetPeerState(context.Context, string) (*internalpb.PeerS
 	return nil, false
 }
 func (s *verifC33Store) DeletePeerState(_ context.Context, a string) error {
+	if s.onDelete != nil {
+		s.onDelete(a)
+	}
 	s.mu.Lock()
 	s.deletes = append(s.deletes, a)
 	s.mu.Unlock()
@@ -98,9 +108,9 @@ func (s *verifC33Store) Close() error { return nil }
 func c33ActorName(id int) string { return "a" + strconv.Itoa(id) }
 func c33GrainName(id int) string { return "g" + strconv.Itoa(id) }
 
-func c33WireActor(a c32Actor) *internalpb.Actor {
+func c33WireActor(a c32Actor, host string) *internalpb.Actor {
 	w := &internalpb.Actor{
-		Address:     address.New(c33ActorName(a.ID), "test", c33DepHost, c33DepRemoting).String(),
+		Address:     address.New(c33ActorName(a.ID), "test", host, c33DepRemoting).String(),
 		Type:        "actor.verifc33unknown",
 		Relocatable: true,
 	}
@@ -114,10 +124,10 @@ func c33WireActor(a c32Actor) *internalpb.Actor {
 	return w
 }
 
-func c33WireGrain(g c32Grain) *internalpb.Grain {
+func c33WireGrain(g c32Grain, host string) *internalpb.Grain {
 	return &internalpb.Grain{
 		GrainId:           &internalpb.GrainId{Value: c33GrainName(g.ID), Name: c33GrainName(g.ID), Kind: "actor.verifc33grain"},
-		Host:              c33DepHost,
+		Host:              host,
 		Port:              c33DepRemoting,
 		DisableRelocation: g.Disabled,
 		EagerRelocation:   g.Eager,
@@ -157,6 +167,12 @@ func c33RunWorker(t *testing.T, c c33Case) (out c33Out) {
 	var mu sync.Mutex
 	started := time.Now()
 	localFail := c33Set(c.LocalFail)
+	stale := c33Set(c.Stale)
+	depHost := c.DepHost
+	if depHost == "" {
+		depHost = c33DepHost
+	}
+	out.WantMarker = address.New("x", "test", depHost, c33DepRemoting).HostPort()
 	generic := errors.New("registry unavailable")
 
 	clusterMock := &mockcluster.Cluster{}
@@ -189,6 +205,11 @@ func c33RunWorker(t *testing.T, c c33Case) (out c33Out) {
 		if localFail[name] {
 			return nil, generic
 		}
+		if stale[name] {
+			// the record still points at the departed node: it has to be withdrawn and the actor respawned
+			// (which fails here: its type is not registered on this node)
+			return &internalpb.Actor{Address: address.New(name, "test", depHost, c33DepRemoting).String(), Type: "actor.verifc33unknown"}, nil
+		}
 		// already present on a live node: the relocation of this item is complete without a respawn
 		return &internalpb.Actor{Address: address.New(name, "test", "10.0.0.1", 9000).String()}, nil
 	}).Maybe()
@@ -199,8 +220,16 @@ func c33RunWorker(t *testing.T, c c33Case) (out c33Out) {
 		if localFail[id] {
 			return nil, generic
 		}
+		if stale[id] {
+			return &internalpb.Grain{GrainId: &internalpb.GrainId{Value: id, Name: id, Kind: "actor.verifc33grain"}, Host: depHost, Port: c33DepRemoting}, nil
+		}
 		return &internalpb.Grain{GrainId: &internalpb.GrainId{Value: id}, Host: "10.0.0.1", Port: 9000}, nil
 	}).Maybe()
+
+	clusterMock.EXPECT().RemoveActor(mock.Anything, mock.Anything).Return(nil).Maybe()
+	clusterMock.EXPECT().PutActor(mock.Anything, mock.Anything).Return(nil).Maybe()
+	clusterMock.EXPECT().RemoveGrain(mock.Anything, mock.Anything).Return(nil).Maybe()
+	clusterMock.EXPECT().PutGrain(mock.Anything, mock.Anything).Return(nil).Maybe()
 
 	remotingMock := &mocksremote.Client{}
 	remotingMock.Test(t)
@@ -235,8 +264,15 @@ func c33RunWorker(t *testing.T, c c33Case) (out c33Out) {
 					resp.Failures = append(resp.Failures, &internalpb.RelocationFailure{Id: n, Grain: true, Message: "remote failure"})
 				}
 			}
-			call.Ok = !bad && req.GetDepartedNode() == address.FormatHostPort(c33DepHost, c33DepRemoting)
+			call.Ok = !bad
 			mu.Lock()
+			known := false
+			for _, m := range out.Markers {
+				known = known || m == req.GetDepartedNode()
+			}
+			if !known {
+				out.Markers = append(out.Markers, req.GetDepartedNode())
+			}
 			out.Calls = append(out.Calls, call)
 			mu.Unlock()
 			if !call.Ok {
@@ -252,16 +288,26 @@ func c33RunWorker(t *testing.T, c c33Case) (out c33Out) {
 	sys.clusterNode = &discovery.Node{Host: "10.0.0.50", PeersPort: 7050, RemotingPort: 9050, Roles: c32Roles(c.LeaderRoles)}
 
 	peerState := &internalpb.PeerState{
-		Host: c33DepHost, PeersPort: c33DepPeers, RemotingPort: c33DepRemoting,
+		Host: depHost, PeersPort: c33DepPeers, RemotingPort: c33DepRemoting,
 		Actors: map[string]*internalpb.Actor{}, Grains: map[string]*internalpb.Grain{},
 	}
 	for _, a := range c.Actors {
-		peerState.Actors[c33ActorName(a.ID)] = c33WireActor(a)
+		peerState.Actors[c33ActorName(a.ID)] = c33WireActor(a, depHost)
 	}
 	for _, g := range c.Grains {
-		peerState.Grains[c33GrainName(g.ID)] = c33WireGrain(g)
+		peerState.Grains[c33GrainName(g.ID)] = c33WireGrain(g, depHost)
 	}
-	jobKey := c33DepHost + ":" + strconv.Itoa(c33DepPeers)
+	jobKey := net.JoinHostPort(depHost, strconv.Itoa(c33DepPeers))
+	// a duplicate NodeLeft handled by the leader while the worker is deleting the snapshot: the snapshot is
+	// still readable, so only the registered job keeps it from starting a second relocation of the node
+	store.onDelete = func(string) {
+		if sys.beginRelocation(jobKey, &internalpb.PeerState{Host: depHost, PeersPort: c33DepPeers, RemotingPort: c33DepRemoting, Actors: peerState.Actors}) {
+			mu.Lock()
+			out.DupAccepted++
+			mu.Unlock()
+			sys.endRelocation(jobKey)
+		}
+	}
 	if !sys.beginRelocation(jobKey, peerState) {
 		out.Err = "beginRelocation refused a fresh job"
 		return out
@@ -367,6 +413,7 @@ type c33Applied struct {
 	Queue   []c33Msg          `json:"queue"`
 	Events  []c33LeaderEvent  `json:"events"`
 	Deletes int               `json:"deletes"`
+	DupAccepted int           `json:"dup_accepted"` // duplicate departures accepted while a snapshot was being deleted (so far)
 }
 
 type c33LeaderEvent struct {
@@ -521,6 +568,19 @@ func c33RunLeader(t *testing.T, sq c33Seq) (out c33LeaderOut) {
 		return &internalpb.Actor{Address: address.New(name, "test", "10.0.0.1", 9000).String()}, nil
 	}).Maybe()
 	store := &verifC33Store{}
+	var dupMu sync.Mutex
+	dupAccepted := 0
+	// a duplicate NodeLeft handled by the leader while the snapshot of that address is being deleted
+	store.onDelete = func(addr string) {
+		host, port, _ := net.SplitHostPort(addr)
+		pp, _ := strconv.Atoi(port)
+		if sys.beginRelocation(addr, &internalpb.PeerState{Host: host, PeersPort: int32(pp), Actors: map[string]*internalpb.Actor{"dup": {Address: "dup"}}}) {
+			dupMu.Lock()
+			dupAccepted++
+			dupMu.Unlock()
+			sys.endRelocation(addr)
+		}
+	}
 	sys.cluster = clusterMock
 	sys.clusterStore = store
 	sys.relocationEnabled.Store(true)
@@ -606,6 +666,9 @@ func c33RunLeader(t *testing.T, sq c33Seq) (out c33LeaderOut) {
 		store.mu.Lock()
 		ap.Deletes = len(store.deletes)
 		store.mu.Unlock()
+		dupMu.Lock()
+		ap.DupAccepted = dupAccepted
+		dupMu.Unlock()
 	}
 
 	for _, op := range sq.Ops {
